@@ -512,7 +512,11 @@ func init() {
 			payload := r.sockQuery(adv)
 			if r.Chance(50) {
 				var f dohFault
-				switch r.Intn(17) {
+				switch r.Intn(18) {
+				case 17:
+					// a complete but tiny body (1..3 bytes): relayed like any other upstream message
+					f = dohFault{kind: "malformed", arg: 1 + r.Intn(3), salt: r.Intn(256)}
+					c.Stat("doh:tiny-body")
 				case 16:
 					f = dohFault{kind: "hshang"}
 				case 0:
@@ -574,7 +578,12 @@ func init() {
 				case 1: // the valid answer arrives after the deadline
 					script = append(script, dgram{delay: late, kind: "match", n: 40 + r.Intn(100), salt: r.Intn(256)})
 				case 2:
-					script = append(script, dgram{delay: 30 + r.Intn(20), kind: "garbage", n: 2 + r.Intn(200), salt: r.Intn(256)})
+					n := 2 + r.Intn(200)
+					if r.Chance(30) {
+						n = 2 + r.Intn(2) // the shortest datagrams DNS53.resolve accepts: the ID and nothing else
+						c.Stat("dns53:tiny-datagram")
+					}
+					script = append(script, dgram{delay: 30 + r.Intn(20), kind: "garbage", n: n, salt: r.Intn(256)})
 				default:
 					n := r.respLen(adv)
 					if n > 65000 {
